@@ -264,6 +264,27 @@ def directed_search(ctx, d, label):
 
 
 def check_property(pid, tier, seed):
+    try:
+        return check_property_(pid, tier, seed)
+    except Exception:
+        # the machinery itself failed on this tree: the property is no longer shown to hold
+        import traceback
+        tb = traceback.format_exc()
+        sys.stderr.write(tb)
+        path = write_replay(pid, {'property': pid, 'kind': 'infrastructure',
+                                  'what': 'the check could not be completed on this tree; no theorem or correspondence was established',
+                                  'traceback': tb[-6000:]})
+        ev = {'property_id': pid, 'tier': tier, 'seed': seed, 'level': 'proof',
+              'coverage': {'obligations': 1, 'discharged': 0, 'checker_cmd': 'n/a (check aborted)', 'trusted_base': TRUSTED_BASE,
+                           'evaluations': 1, 'distinct_nontrivial': 0, 'explanation': 'check aborted: ' + tb.strip().splitlines()[-1][:300]},
+              'wall_s': 0.0, 'violations': 1}
+        os.makedirs(os.path.join(P.VERIF, 'evidence'), exist_ok=True)
+        json.dump(ev, open(os.path.join(P.VERIF, 'evidence', pid + '.json'), 'w'), indent=1)
+        print('VIOLATION property=%s replay=%s no-failing-input-found' % (pid, path))
+        return 1
+
+
+def check_property_(pid, tier, seed):
     t0 = time.time()
     prop = prop_text(pid)
     violations = []   # (replay_path, suffix)
